@@ -348,6 +348,15 @@ def view_of_noncontiguous(ctx: Ctx, modules: tuple[str, ...] = ("cirkit.backend.
 
 
 # ------------------------------------------------------------------------------------------ R14g
+def _pair_lists(fn: ast.AST) -> list[ast.AST]:
+    """the expressions bound to the list of layer pairs a product layer multiplies (`next_to_multiply = ..`)"""
+    out = []
+    for n in ast.walk(fn):
+        if isinstance(n, ast.Assign) and len(n.targets) == 1 and isinstance(n.targets[0], ast.Name) and "multiply" in n.targets[0].id:
+            out.append(n.value)
+    return out
+
+
 def product_input_order(ctx: Ctx, fq: str = "cirkit.symbolic.functional.multiply") -> list[Ob]:
     """R14g -- the product of two product layers lists its inputs in the operands' declared order.
 
@@ -371,7 +380,18 @@ def product_input_order(ctx: Ctx, fq: str = "cirkit.symbolic.functional.multiply
                 key = fc.text(t.slice, n)
                 if "retrieve_rule" not in key and "func(" not in key and "prod_block" not in unparse(t.slice):
                     continue  # only the block produced by a product rule
-                if "sorted(" in c and "layer_inputs(" in c:
+                # where do the *first components* of the pairs come from?  `[(l1_inputs[i], ..) for i in range(len(l1_inputs))]`
+                # (declared order, whatever is used to find the partner) is fine; a zip over sorted lists is not
+                declared = False
+                for d in _pair_lists(f.node):
+                    if isinstance(d, ast.ListComp) and len(d.generators) == 1 and isinstance(d.elt, ast.Tuple) and d.elt.elts:
+                        it_c = fc.text(d.generators[0].iter, n)
+                        first_c = fc.text(d.elt.elts[0], n)
+                        if "sorted(" not in it_c and "sorted(" not in first_c.split("[ELEM", 1)[0] and "layer_inputs(" in first_c:
+                            declared = True
+                if declared:
+                    out.append(ok("R14g", fq, "product-input-order", "the pairs are listed in the declared order of the first operand's inputs (sorting is only used to find the partner)", site))
+                elif "sorted(" in c and "layer_inputs(" in c:
                     out.append(viol("R14g", fq, "product-input-order", "the inputs of the product block are wired in the order of `sorted(<layer inputs>, key=scope)`, not in the declared order of the operand's inputs: a Kronecker layer whose inputs are not listed by increasing scope (or with evidence on a later input: the empty scope sorts first) is multiplied into a layer whose units are in another order, and the product evaluates to wrong values without an error", site))
                 else:
                     out.append(ok("R14g", fq, "product-input-order", "the product block's inputs follow the operand's declared input order", site))
